@@ -964,11 +964,11 @@ class ExprMixin:
         if len(node.generators) != 1:
             raise Unsupported("nested list comprehension")
         g = node.generators[0]
-        if g.ifs:
-            raise Unsupported("filtered list comprehension (give it an assumed model in the contract)")
         vs, guard, binds, dom = self.gen_domain(g, st)
         if dom[0] == "set":
             raise Unsupported("list comprehension over a set (order)")
+        if g.ifs:
+            return self.filtered_listcomp(node, g, vs, guard, binds, dom, st, want)
         with self.binding(binds):
             with self.guarded(guard):
                 self.qscope.append((vs, guard))
@@ -995,6 +995,50 @@ class ExprMixin:
         return SV(sty.mk(arr, ln), sty)
 
     ev_GeneratorExp = ev_ListComp
+
+    def filtered_listcomp(self, node, g, vs, guard, binds, dom, st, want):
+        """[elt(x) for x in xs if cond(x)]: a fresh sequence r together with an order-preserving bijection between its
+        positions and the source positions that satisfy the condition:
+          pick: [0, len r) -> source positions, strictly increasing, cond holds there, r[j] == elt at pick(j);
+          slot: source positions with cond -> [0, len r), pick(slot(i)) == i."""
+        if dom[0] not in ("seq", "range"):
+            raise Unsupported("filtered list comprehension over zip()")
+        v = vs[0]
+        with self.binding(binds):
+            self.qscope.append((vs, guard))
+            try:
+                conds = [self.truthy(self.ev(c, st)) for c in g.ifs]
+            finally:
+                self.qscope.pop()
+            cond = z3.And(*conds)
+            with self.guarded(z3.And(guard, cond)):
+                self.qscope.append((vs, z3.And(guard, cond)))
+                try:
+                    body = self.ev(node.elt, st, want.elem if isinstance(want, T.Seq) else None)
+                finally:
+                    self.qscope.pop()
+        sty = T.Seq(body.ty)
+        r = fresh(sty, "filtered")
+        n, arr = sty.len(r.t), sty.arr(r.t)
+        pick = z3.Function(fresh_name("pick"), z3.IntSort(), z3.IntSort())
+        slot = z3.Function(fresh_name("slot"), z3.IntSort(), z3.IntSort())
+        j, k = z3.Int(fresh_name("j")), z3.Int(fresh_name("k"))
+
+        def at(term, pos):
+            return z3.substitute(term, (v, pos))
+
+        st.assume(n >= 0)
+        st.assume(z3.ForAll([j], z3.Implies(z3.And(0 <= j, j < n), z3.And(at(guard, pick(j)), at(cond, pick(j)), arr[j] == at(body.t, pick(j)), slot(pick(j)) == j)),
+                            patterns=[pick(j)]))
+        st.assume(z3.ForAll([j, k], z3.Implies(z3.And(0 <= j, j < k, k < n), pick(j) < pick(k)), patterns=[z3.MultiPattern(pick(j), pick(k))]))
+        pats = [slot(v)]
+        if dom[0] == "seq":
+            pats.append(z3.Select(dom[1].ty.arr(dom[1].t), v))  # any mention of xs[i] asks whether i was kept
+        st.assume(z3.ForAll([v], z3.Implies(z3.And(guard, cond), z3.And(0 <= slot(v), slot(v) < n, pick(slot(v)) == v)), patterns=pats))
+        # instantiation help: every element access r[j] mentions pick(j)
+        st.assume(z3.ForAll([j], z3.Implies(z3.And(0 <= j, j < n), arr[j] == at(body.t, pick(j))), patterns=[arr[j]]))
+        self.used_models.add("filtered list comprehension: order-preserving bijection with the source positions satisfying the condition")
+        return r
 
     def ev_SetComp(self, node, st, want):
         if len(node.generators) != 1:
